@@ -21,7 +21,7 @@ META = {
                    "rounds once with eps; (4) GAUGE - both start from a right-to-left orthogonalisation of the operand with a fresh "
                    "rank list and never write the operand.",
     "assumptions": ["the eps bound itself and optimality of ranks are not decided", "to_qtt/qtt_to_tens are covered only by the discipline rules"],
-    "floors": {"DRAIN": 6, "E4-ALLOWANCE": 4, "E4-EPSFLOW": 3, "GAUGE": 2},
+    "floors": {"E5-CHAIN": 4, "DRAIN": 6, "E4-ALLOWANCE": 4, "E4-EPSFLOW": 3, "GAUGE": 2},
 }
 ANCHORS = ["_extras.reshape", "_extras.permute", "_tt_base.TT.to_qtt", "_tt_base.TT.qtt_to_tens"]
 
@@ -189,6 +189,8 @@ def check(model: Model, tier: str):
     obs.append(Ob("E4-EPSFLOW", "_extras.reshape:E4-EPSFLOW:final-round", OK if okr else VIOLATED, model.where(f), "return TT(cores_new).round(eps)",
                   "one final rounding with the caller's eps" if okr else "the final rounding does not use the caller's eps"))
     obs += rule_gauge(model)
+    from ..e5 import obligations as e5ob
+    obs += e5ob.for_property(model, "C10", tier)      # the contract of one core exchange of permute, on every path of the branch
     from ..adjoint import rule_adjoint, self_fixture
     obs += rule_adjoint(model, [model.func("_extras.permute"), model.func("_extras.reshape")])
     fx = self_fixture()
